@@ -153,7 +153,7 @@ func smooth(ws []wop) []string {
 
 var nameDraw = smooth([]wop{{"a", 5}, {"b", 4}, {"m", 4}, {"c", 1}, {"", 1}, {"int64", 2}, {"bool", 1}, {"e", 2}, {"a.b", 1}, {"x.y.z", 1}, {".", 1}})
 var pathElems = smooth([]wop{{"a", 4}, {"b", 3}, {"m", 4}, {"c", 1}, {"zz", 1}, {"", 1}, {"e", 1}, {"a.b", 1}})
-var valKinds = smooth([]wop{{"int", 6}, {"str", 2}, {"nil", 1}, {"addr", 2}, {"env", 1}})
+var valKinds = smooth([]wop{{"int", 6}, {"str", 2}, {"nil", 1}, {"addr", 2}, {"env", 1}, {"bad", 1}})
 var extDraw = smooth([]wop{{"0", 5}, {"1", 2}, {"2", 2}, {"3", 1}})
 var histLens = []int{12, 20, 8, 30, 16, 25, 6, 10, 28, 14, 22, 18, 7, 24, 9, 26, 11, 29, 13, 27, 15, 23, 17, 21, 19, 5, 4, 3, 2, 1}
 
@@ -186,7 +186,9 @@ func genVal(t *rapid.T, step, live int, valueForm bool) *Val {
 	switch k {
 	case "nil":
 		return &Val{K: "nil"}
-	case "addr":
+	case "addr", "bad":
+		// "bad": a reflect.Value that cannot be handed out again (the zero Value for even N, a value read from an
+		// unexported struct field for odd N); only the *Value calls can be given one
 		if !valueForm {
 			k = "int"
 		}
@@ -466,6 +468,15 @@ func (r *run) value(v *Val, valueForm bool) (interface{}, reflect.Value, mval) {
 			return x, reflect.ValueOf(p).Elem(), mval{k: 'i', n: x, addr: 1}
 		}
 		return x, reflect.ValueOf(x), mval{k: 'i', n: x}
+	case "bad":
+		if !valueForm {
+			x := int64(v.N)
+			return x, reflect.ValueOf(x), mval{k: 'i', n: x}
+		}
+		if v.N%2 == 0 {
+			return nil, reflect.Value{}, mval{k: 'x'}
+		}
+		return nil, reflect.ValueOf(struct{ hidden int64 }{int64(v.N)}).Field(0), mval{k: 'x'}
 	case "env":
 		n := len(r.live)
 		j := ((v.N % n) + n) % n
@@ -687,7 +698,13 @@ func (r *run) step(i int, op Op, o *h.Obs) *h.Fail {
 		default:
 			call = func() { g.err = e.DefineGlobalValue(name, rv) }
 		}
-		if dotted {
+		if valueForm && op.V != nil && op.V.K == "bad" {
+			// an invalid request: "returns an error and leaves every scope unchanged; it never panics"
+			one(outcome{err: true})
+			if !dotted {
+				o.Class("define:invalid-reflect-value")
+			}
+		} else if dotted {
 			one(outcome{err: true, dot: true})
 		} else {
 			old, had := target.values[name]
@@ -713,6 +730,9 @@ func (r *run) step(i int, op Op, o *h.Obs) *h.Fail {
 		}
 		target, shadow := mfindTable(nd, name)
 		switch {
+		case valueForm && op.V != nil && op.V.K == "bad":
+			one(outcome{err: true})
+			o.Class("set:invalid-reflect-value")
 		case target == nil:
 			one(outcome{err: true})
 			o.Class("set:missing")
